@@ -43,8 +43,8 @@ theorem inv2_init (now : Int) (hs : Bool) : Inv2 (init now hs) :=
 theorem inv2_pc_only {s : State} (h2 : Inv2 s) (t : Tid) (p : Pc)
     (hd : ∀ e o, p ≠ .draining e o)
     (hh : ∀ e r, p = .hitServe e r → ∃ c x, Fetched s.fetched (s.entries e).key r c x)
-    (hw : ∀ e st r, p ≠ .woken e st r) :
-    Inv2 { s with pc := upd s.pc t p } := by
+    (hw : ∀ e st r, p ≠ .woken e st r) (u : Tid → Nat := s.ups) :
+    Inv2 { s with pc := upd s.pc t p, ups := u } := by
   constructor
   all_goals simp only
   · intro t' e' ttl r; have := h2.drain_hit t' e' ttl r; have := hd e' (.cacheable ttl r); grind
@@ -81,12 +81,12 @@ theorem inv2_step {s s' : State} (h : Inv s) (h2 : Inv2 s) (ev : Event) (hon : H
     · split at hs
       · split at hs
         · simp only [Option.some.injEq] at hs; subst hs
-          exact inv2_pc_only h2 t _ (by simp) (by simp) (by simp)
+          exact inv2_pc_only h2 t _ (by simp) (by simp) (by simp) (u := _)
         · simp at hs
       · simp only [Option.some.injEq] at hs; subst hs
-        exact inv2_pc_only h2 t _ (by simp) (by simp) (by simp)
+        exact inv2_pc_only h2 t _ (by simp) (by simp) (by simp) (u := _)
     · simp only [Option.some.injEq] at hs; subst hs
-      exact inv2_pc_only h2 t _ (by simp) (by simp) (by simp)
+      exact inv2_pc_only h2 t _ (by simp) (by simp) (by simp) (u := _)
     · simp at hs
   | age t =>
     simp only [step] at hs
